@@ -1386,7 +1386,12 @@ mismatch between values and axes""".format(inferred, self.values.shape)
         """ initialize a DimArray from a json-compatible dictionary
         """
         jsondict = jsondict.copy()
-        dima = cls(jsondict.pop('values', None), 
+        values = jsondict.pop('values', None)
+        shape = jsondict.get('shape', None)
+        if shape is not None and values is not None and np.size(values) == 0:
+            # nested empty lists lose the dimensions after the first empty one
+            values = np.reshape(np.asarray(values, dtype=float), shape)
+        dima = cls(values, 
                    axes=jsondict.pop('labels', None), 
                    dims=jsondict.pop('dims', None))
         if 'meta' in jsondict:
